@@ -1525,12 +1525,17 @@ def _arith_atoms(c, formula):
         if e is None or e[0] in ('caseatom', 'defaultatom'):
             continue
         if any(x[0] == 'bin' and x[1] in ('%', '//', '**', '<<', '>>') or x[0] == 'nary' and x[1] in ('*', '&', '|', '^') or
-               x[0] == 'ceildiv' or (x[0] == 'call' and x[1][0] == 'attr' and x[1][2] == 'bit_length') for x in ir.walk(e)):
+               x[0] == 'ceildiv' or (x[0] == 'call' and x[1][0] == 'attr' and x[1][2] in ('bit_length', 'bit_count', 'count')) or
+               (x[0] == 'call' and x[1] in (('name', 'bin'), ('name', 'exact_log2'), ('name', 'ceil_log2'), ('name', 'log2'), ('name', 'divmod')))
+               for x in ir.walk(e)):
             names = frozenset(x[1] if x[0] == 'name' else x[2] for x in ir.walk(e)
-                              if x[0] == 'name' or (x[0] == 'attr' and x[1] == ('name', 'self')))
-            ops = tuple(sorted(str(x[1]) if x[0] in ('bin', 'nary', 'cmp') else ('ceildiv' if x[0] == 'ceildiv' else 'bit_length')
+                              if x[0] == 'name' or (x[0] == 'attr' and x[1] == ('name', 'self'))) - \
+                frozenset({"exact_log2", "ceil_log2", "log2", "max", "min", "len", "bin", "int", "isinstance", "divmod", "abs"})
+            ops = tuple(sorted(str(x[1]) if x[0] in ('bin', 'nary', 'cmp') else ('ceildiv' if x[0] == 'ceildiv' else
+                                                                                (x[1][2] if x[1][0] == 'attr' else x[1][1]))
                                for x in ir.walk(e) if x[0] in ('bin', 'nary', 'cmp', 'ceildiv') or
-                               (x[0] == 'call' and x[1][0] == 'attr' and x[1][2] == 'bit_length')))
+                               (x[0] == 'call' and x[1][0] == 'attr' and x[1][2] in ('bit_length', 'bit_count', 'count')) or
+                               (x[0] == 'call' and x[1] in (('name', 'bin'), ('name', 'exact_log2'), ('name', 'ceil_log2'), ('name', 'log2')))))
             out.append((names, a, ops))
     return out
 
